@@ -32,7 +32,7 @@ def scenario(draw, tier="quick"):
     nr = draw(st.integers(3, 4))
     afs = [draw(st.sampled_from([0.5, 2.4, 2.5, 10.0, 25.0, 40.0])) for _ in range(nr)]
     shared_removal = {"r": draw(st.integers(0, nr - 1)),
-                      "af": draw(st.sampled_from([0, 1.0, 2.49, 2.5, 2.51, 10, 40, 99] + ([None] if not bsp else [])))}
+                      "af": draw(st.sampled_from([0, 1.0, 2.49, 2.5, 2.51, 10, 40, 99, None]))}  # None: market without reduction factors
     markets, scripts = [], []
     for mi in range(nm):
         spec = world.default_market(mi, nr, event=0 if grouped else mi)
@@ -167,6 +167,8 @@ def check(sc):
                         if is_moc_lay and exp_f:
                             own_af = ups[u].runner_af[sel_ids.index(o["sel"])]
                             for _, f in exp_f:
+                                if f is None:
+                                    continue  # removal without a reduction factor: nothing to scale
                                 if mtype == "WIN":
                                     exp = exp * (1 - f / (100 - own_af))
                                 elif mtype in ("PLACE", "OTHER_PLACE"):
